@@ -28,14 +28,11 @@ inductive Tok
 structure PrepFrame where
   kind : PushKind
   start : Int
-  fieldLen : Int      -- `l.length` of a varintLengthField
-  id : Nat
+  fieldLen : Int      -- `l.length` of a varintLengthField when it was pushed
 
 structure PrepSt where
   length : Int := 0
   stack : List PrepFrame := []
-  nextId : Nat := 0
-  varlens : List (Nat × Int) := []   -- (push id, length stored by adjustLength)
   ok : Bool := true                  -- false after pop on an empty stack (a Go panic)
 
 def reserveLength (k : PushKind) (fieldLen : Int) : Int :=
@@ -44,28 +41,28 @@ def reserveLength (k : PushKind) (fieldLen : Int) : Int :=
   | .crc _ => 4
   | .varlen => (prepVarint fieldLen : Nat)
 
+/-- `adjustLength` of a varint length field pushed at `start` holding `fieldLen`, popped at `cur`:
+    (new `l.length`, what is added to `prepEncoder.length`) -/
+def adjustLength (cur start fieldLen : Int) : Int × Int :=
+  (cur - start - reserveLength .varlen fieldLen,
+   reserveLength .varlen (cur - start - reserveLength .varlen fieldLen) - reserveLength .varlen fieldLen)
+
 def prepStep (s : PrepSt) : Tok → PrepSt
   | .prim p v => { s with length := s.length + (sizeP p v : Nat) }
   | .arrLen _ => { s with length := s.length + 4 }
   | .cArrLen n => { s with length := s.length + (prepUVarint (n + 1).toNat : Nat) }
   | .push k stale =>
-    { s with length := s.length + reserveLength k stale,
-             stack := ⟨k, s.length, stale, s.nextId⟩ :: s.stack, nextId := s.nextId + 1 }
+    { s with length := s.length + reserveLength k stale, stack := ⟨k, s.length, stale⟩ :: s.stack }
   | .pop =>
     match s.stack with
     | [] => { s with ok := false }
     | f :: st =>
       match f.kind with
-      | .varlen =>
-        -- adjustLength: oldFieldSize := reserveLength(); l.length = cur − start − oldFieldSize;
-        --               return reserveLength() − oldFieldSize
-        { s with stack := st,
-                 length := s.length + (reserveLength .varlen (s.length - f.start - reserveLength .varlen f.fieldLen)
-                                        - reserveLength .varlen f.fieldLen),
-                 varlens := (f.id, s.length - f.start - reserveLength .varlen f.fieldLen) :: s.varlens }
+      | .varlen => { s with stack := st, length := s.length + (adjustLength s.length f.start f.fieldLen).2 }
       | _ => { s with stack := st }
 
-def runPrep (ts : List Tok) : PrepSt := ts.foldl prepStep {}
+def runPrepFrom (s : PrepSt) (ts : List Tok) : PrepSt := ts.foldl prepStep s
+def runPrep (ts : List Tok) : PrepSt := runPrepFrom {} ts
 
 /-! ### realEncoder -/
 
@@ -77,7 +74,6 @@ structure RealFrame where
 structure RealSt where
   buf : Bytes := []
   stack : List RealFrame := []
-  nextId : Nat := 0
   ok : Bool := true
 
 def zeros (n : Nat) : Bytes := List.replicate n 0
@@ -86,19 +82,14 @@ def zeros (n : Nat) : Bytes := List.replicate n 0
 def patch (buf : Bytes) (start : Nat) (field : Bytes) : Bytes :=
   buf.take start ++ field ++ buf.drop (start + field.length)
 
-def lookupLen (vl : List (Nat × Int)) (id : Nat) : Int :=
-  match vl.find? (fun e => e.1 == id) with
-  | some e => e.2
-  | none => 0
-
-/-- `vl` = the lengths the prep pass stored in the varint length fields, by push id -/
-def realStep (vl : List (Nat × Int)) (s : RealSt) : Tok → RealSt
+/-- the real pass: a varint length field reserves room for, and at pop writes, the length it holds when it is
+    pushed (`fieldLen` of the push token: the value the prep pass stored in it) -/
+def realStep (s : RealSt) : Tok → RealSt
   | .prim p v => { s with buf := s.buf ++ encP p v }
   | .arrLen n => { s with buf := s.buf ++ putArrayLength n }
   | .cArrLen n => { s with buf := s.buf ++ putUVarint (n + 1).toNat }
-  | .push k _ =>
-    { s with buf := s.buf ++ zeros (reserveLength k (lookupLen vl s.nextId)).toNat,
-             stack := ⟨k, s.buf.length, lookupLen vl s.nextId⟩ :: s.stack, nextId := s.nextId + 1 }
+  | .push k fieldLen =>
+    { s with buf := s.buf ++ zeros (reserveLength k fieldLen).toNat, stack := ⟨k, s.buf.length, fieldLen⟩ :: s.stack }
   | .pop =>
     match s.stack with
     | [] => { s with ok := false }
@@ -108,11 +99,11 @@ def realStep (vl : List (Nat × Int)) (s : RealSt) : Tok → RealSt
       | .crc p => { s with stack := st, buf := patch s.buf f.start (be 4 (crc32 p (s.buf.drop (f.start + 4)))) }
       | .varlen => { s with stack := st, buf := patch s.buf f.start (putVarint f.fieldLen) }
 
-def runReal (vl : List (Nat × Int)) (ts : List Tok) : RealSt := ts.foldl (realStep vl) {}
+def runRealFrom (s : RealSt) (ts : List Tok) : RealSt := ts.foldl realStep s
+def runReal (ts : List Tok) : RealSt := runRealFrom {} ts
 
 /-- `encode(e)`: prep pass, buffer of that size, real pass -/
-def runEncode (ts : List Tok) : Int × Bytes :=
-  ((runPrep ts).length, (runReal (runPrep ts).varlens ts).buf)
+def runEncode (ts : List Tok) : Int × Bytes := ((runPrep ts).length, (runReal ts).buf)
 
 /-! ### realDecoder -/
 
@@ -222,17 +213,19 @@ def countTok : Count → Option Nat → List Tok
   | .varint, some n => [.prim .varint (.int n)]
   | _, none => []
 
-def toks : Fmt → Nat → Val → List Tok
+/-- `fresh = true`: the varint length fields hold 0 when pushed (first prep pass over a new value);
+    `fresh = false`: they hold the size of their body (every later pass, in particular the real pass) -/
+def toks (fresh : Bool) : Fmt → Nat → Val → List Tok
   | .prim p, _, v => [.prim p v]
   | .unit, _, _ => []
-  | .seq a b, ver, .pair x y => toks a ver x ++ toks b ver y
+  | .seq a b, ver, .pair x y => toks fresh a ver x ++ toks fresh b ver y
   | .seq _ _, _, _ => []
-  | .ite lo hi a b, ver, v => if lo ≤ ver ∧ ver ≤ hi then toks a ver v else toks b ver v
-  | .arr c e, ver, .list vs => countTok c (some vs.length) ++ (vs.map (toks e ver)).flatten
+  | .ite lo hi a b, ver, v => if lo ≤ ver ∧ ver ≤ hi then toks fresh a ver v else toks fresh b ver v
+  | .arr c e, ver, .list vs => countTok c (some vs.length) ++ (vs.map (toks fresh e ver)).flatten
   | .arr c _, _, .null => countTok c none
   | .arr _ _, _, _ => []
-  | .len32 f, ver, v => [.push .len32 0] ++ toks f ver v ++ [.pop]
-  | .varlen f, ver, v => [.push .varlen 0] ++ toks f ver v ++ [.pop]
-  | .crc p f, ver, v => [.push (.crc p) 0] ++ toks f ver v ++ [.pop]
+  | .len32 f, ver, v => [.push .len32 0] ++ toks fresh f ver v ++ [.pop]
+  | .varlen f, ver, v => [.push .varlen (if fresh then 0 else (size f ver v : Nat))] ++ toks fresh f ver v ++ [.pop]
+  | .crc p f, ver, v => [.push (.crc p) 0] ++ toks fresh f ver v ++ [.pop]
 
 end Model.Codec
